@@ -10,6 +10,7 @@ uninterpreted.  Everything outside the supported subset raises ``Unsupported`` a
 the target is reported as *not established* (never as a violation).
 
 What the encoding assumes of Python (the trusted base of U-mode):
+ * ``return a if c else b`` and ``x = a if c else b`` are desugared into the equivalent if-statement;
  * statements supported: assignment (names, tuple unpacking, attributes of the abstract
    ``self``), augmented assignment, if/elif/else, for over an abstract sequence, ``while <list>:``
    draining a list with pop(0)/pop(), return, raise, pass, expression statements, try (body only:
@@ -871,6 +872,13 @@ class Interp:
         cur = st
         for idx, s in enumerate(block):
             rest = block[idx + 1:]
+            if isinstance(s, (ast.Return, ast.Assign)) and isinstance(s.value, ast.IfExp):
+                # ``return a if c else b`` / ``x = a if c else b``: the same as the if-statement (c is evaluated first, then only
+                # the selected branch) - desugared so that the fork is a path fork
+                def _with(v, s=s):
+                    n = ast.Return(value=v) if isinstance(s, ast.Return) else ast.Assign(targets=s.targets, value=v)
+                    return ast.copy_location(n, s)
+                s = ast.copy_location(ast.If(test=s.value.test, body=[_with(s.value.body)], orelse=[_with(s.value.orelse)]), s)
             if isinstance(s, ast.If):
                 c = self.truth(self.eval(s.test, cur), cur)
                 if isinstance(c, bool):
